@@ -120,6 +120,83 @@ def gen_total(name, expr, what, tier, unwind=8):
     return h
 
 
+# ---------------------------------------------------------------------------------------------- set algebra (machines/set)
+SETOPS = {
+    # name: (file, struct, kind)  kind: rel (bool result) | op (set result) | mem
+    "subset": ("src/relations/subset.rs", "SetSubsetFxn", "rel"),
+    "superset": ("src/relations/superset.rs", "SetSupersetFxn", "rel"),
+    "proper_subset": ("src/relations/proper_subset.rs", "SetProperSubsetFxn", "rel"),
+    "union": ("src/operations/union.rs", "SetUnionFxn", "op"),
+    "intersection": ("src/operations/intersection.rs", "SetIntersectionFxn", "op"),
+    "difference": ("src/operations/difference.rs", "SetDifferenceFxn", "op"),
+    "symmetric_difference": ("src/operations/symmetric_difference.rs", "SetSymDifferenceFxn", "op"),
+    "element_of": ("src/membership/element_of.rs", "SetElementOfFxn", "mem"),
+}
+STUB_RS = "#[kani::stub(::std::hash::RandomState::new, vp_random_state)]"
+SET_PRELUDE = '''
+  // HashMap/IndexSet semantics do not depend on the hasher keys: fixed keys keep the getrandom loop out of the query
+  pub fn vp_random_state() -> ::std::hash::RandomState { unsafe { ::std::mem::transmute::<[u64; 2], ::std::hash::RandomState>([0x0123_4567_89ab_cdefu64, 0x0fed_cba9_8765_4321u64]) } }
+  pub fn vp_set(xs: &[u8]) -> MechSet { let mut v = Vec::new(); let mut i = 0; while i < xs.len() { v.push(Value::U8(Ref::new(xs[i]))); i += 1; } MechSet::from_vec(v) }
+  pub fn vp_has(s: &MechSet, x: u8) -> bool { let mut found = false; for v in s.set.iter() { if let Value::U8(c) = v { if *c.borrow() == x { found = true; } } } found }
+'''
+
+
+def member(x, xs):
+    return "(" + " || ".join("%s == %s" % (x, y) for y in xs) + ")" if xs else "false"
+
+
+def gen_setop(op, na, nb, tier):
+    relp, struct, kind = SETOPS[op]
+    A = ["a%d" % i for i in range(na)]
+    B = ["b%d" % i for i in range(nb)]
+    b = []
+    for v in A + B:
+        b.append("let %s: u8 = kani::any();" % v)
+    # all values from a tiny universe so that coincidences (a_i == b_j, duplicates) are common cases, not needles
+    if A + B:
+        b.append("kani::assume(%s);" % " && ".join("%s < 4" % v for v in A + B))
+    b.append("let sa = Ref::new(vp_set(&[%s])); let sb = Ref::new(vp_set(&[%s]));" % (", ".join(A), ", ".join(B)))
+    if kind == "rel":
+        b.append("let f = %s { lhs: sa.clone(), rhs: sb.clone(), out: Ref::new(false) };" % struct)
+        b.append("f.solve();")
+        sub = " && ".join(member(x, B) for x in A) if A else "true"       # A subset of B
+        sup = " && ".join(member(y, A) for y in B) if B else "true"       # A superset of B
+        want = {"subset": sub, "superset": sup, "proper_subset": "(%s) && !(%s)" % (sub, sup)}[op]
+        b.append("let want: bool = %s;" % want)
+        b.append("kani::cover!(want, \"VP:reached-true\"); kani::cover!(!want, \"VP:reached-false\");" if (na and nb) else "kani::cover!(true, \"VP:reached\");")
+        b.append("assert!(*f.out.borrow() == want, \"VP:set-relation-disagrees-with-definition\");")
+    elif kind == "op":
+        b.append("let f = %s { lhs: sa.clone(), rhs: sb.clone(), out: Ref::new(MechSet::new(ValueKind::Empty, 0)) };" % struct)
+        b.append("f.solve();")
+        b.append("{ let o = f.out.borrow();")
+        b.append("let mut expected_size: usize = 0;")
+        for x in range(4):
+            inA, inB = member(str(x), A), member(str(x), B)
+            want = {"union": "(%s || %s)" % (inA, inB), "intersection": "(%s && %s)" % (inA, inB), "difference": "(%s && !%s)" % (inA, inB),
+                    "symmetric_difference": "(%s != %s)" % (inA, inB)}[op]
+            b.append("{ let w: bool = %s; if w { expected_size += 1; } assert!(vp_has(&o, %d) == w, \"VP:set-operation-disagrees-with-definition\"); }" % (want, x))
+        b.append("assert!(o.set.len() == expected_size && o.num_elements == expected_size, \"VP:set-size-wrong\");")
+        b.append("kani::cover!(expected_size >= 1, \"VP:reached\"); }" if (na or nb) else "kani::cover!(true, \"VP:reached\"); }")
+    else:
+        b.append("let e: u8 = kani::any(); kani::assume(e < 4);")
+        b.append("let f = %s { elem: Ref::new(Value::U8(Ref::new(e))), set: sa.clone(), out: Ref::new(false) };" % struct)
+        b.append("f.solve();")
+        b.append("let want: bool = %s;" % member("e", A))
+        b.append("kani::cover!(want, \"VP:reached-true\");" if na else "kani::cover!(true, \"VP:reached\");")
+        b.append("assert!(*f.out.borrow() == want, \"VP:membership-disagrees-with-definition\");")
+    b.append("forget(f); forget(sa); forget(sb);")
+    h = H("c14_set_%s_%d_%d" % (op, na, nb), "    " + "\n    ".join(b), ("set", relp), domain="accept", key="set-algebra/%s/%d.%d" % (op, na, nb),
+          desc="%s on a %d-element and a %d-element set of symbolic u8 (values 0..3, so equal elements and duplicates occur): result equals the "
+               "mathematical definition evaluated on the element values" % (op.replace("_", " "), na, nb),
+          functions=["%s::solve (machines/set/%s)" % (struct, relp), "MechSet::from_vec", "IndexSet::{insert,union,intersection,difference,"
+                     "symmetric_difference,is_subset,is_superset,contains} as compiled", "<Value as Hash>::hash / PartialEq for U8"],
+          bounds="|A| = %d, |B| = %d, element values 0..3" % (na, nb), unwind=max(na, nb, 4) + 3, tier=tier, group="set-algebra", solver="kissat")
+    h.attrs = [STUB_RS]
+    h.rec_limit = 1
+    h.heavy = True
+    return h
+
+
 def plan(tier, seed):
     hs = []
     for t in ["u8", "i64", "f64", "bool", "String"]:
@@ -139,16 +216,25 @@ def plan(tier, seed):
     hs.append(gen_total("matrix_f32", "Value::MatrixF32(Matrix::RowDVector(Ref::new(RowDVector::from_vec(vec![kani::any::<f32>()]))))",
                         "a f32 matrix", "thorough", unwind=18))
     hs.append(gen_total("index_all", "Value::IndexAll", "Value::IndexAll", "thorough"))
+    pre = {WHERE: PRELUDE}
+    sizes = [(2, 0), (0, 2), (1, 1), (2, 1), (1, 2), (2, 2), (0, 0)]
+    for n, op in enumerate(SETOPS):
+        relp = SETOPS[op][0]
+        pre[("set", relp)] = SET_PRELUDE
+        for k, (na, nb) in enumerate(sizes):
+            if SETOPS[op][2] == "mem" and nb != 0 and (na, nb) != (2, 2):
+                continue
+            q = "quick" if (na, nb) in ((2, 0), (2, 2)) or (k == (seed + n) % len(sizes)) else "thorough"
+            hs.append(gen_setop(op, na, nb, q))
     return {
         "harnesses": hs,
         "quick_rot_fraction": 0.3,
-        "incrate_prelude": {WHERE: PRELUDE},
+        "incrate_prelude": pre,
         "explanation": "Kani/CBMC over the real `impl Hash for Value/MechSet/MechTuple/Matrix<T>` and the derived PartialEq: for two symbolic "
                        "values of one variant, equality implies an identical hash byte stream (recorded by a deterministic Hasher defined "
                        "in the harness); hashing is total; MechSet::from_vec bookkeeping on three symbolic elements",
         "bounds": "two values per query, all bit patterns; strings 1 byte; tuples of 2; matrices 1x2; sets of 2 (order) and 3 (from_vec)",
-        "outside": ["IndexSet/hashbrown internals beyond the instances above", "set operators of machines/set (union, ... : they "
-                    "delegate to IndexSet and are decided only through the Hash/Eq contract)", "set comprehensions and the kind check of "
+        "outside": ["IndexSet/hashbrown internals beyond the instances above", "set operators on elements other than u8 and on sets larger than 2", "set comprehensions and the kind check of "
                     "set literals (interpreter level)", "sets with more than 3 elements"],
         "caps": {"quick_timeout": 600, "thorough_timeout": 1500},
     }
